@@ -70,8 +70,13 @@ def box(names, extra_zero=True):
     return out
 
 
+EXTRA_NAMES = {"not_ready": 5, "or_mask": 6, "if_": 7, "else_0": 9, "True_": 11,
+               "False_positive": 13, "and_": 3, "notx": 4, "in_": 2, "is_": 8}
+
+
 def full_env(e):
-    env = dict(e)
+    env = dict(EXTRA_NAMES)
+    env.update(e)
     env.update(FUNCS)
     env.update({"A": A_TUPLE, "D": D_DICT, "O": O_OBJ})
     return env
@@ -420,7 +425,13 @@ def special_skeletons():
            "True", "False", "True + a", "not True", "Truex" if False else "a + True",
            "1.5 * a", "a * 2.5", "1e2 + a", "a + 1.5e-1", ".5 * a", "5. * a", "a ** 2.0",
            "10 // a", "10 % a", "2 ** a", "1 << a", "007" if False else "7 * a",
-           "a   +   b", " a+b ", "a\t*\tb", "(a +\n b)"]
+           "a   +   b", " a+b ", "a\t*\tb", "(a +\n b)",
+           "((a, b),)", "(a, b),", "((),)", "((a, b), c)", "(a, b), c", "(a, (b, c))",
+           "((a, b), (c, d))", "f2((a, b), c)", "h((a, b),)", "((a,),)", "(a,), b",
+           "D[(a%3, 1)]", "((a, b),)[0]", "((a, b), c)[0]",
+           "not_ready + 1", "a * not_ready", "or_mask | a", "if_ + 1", "else_0 * 2",
+           "True_ + 1", "False_positive - a", "and_ + a", "a if if_ else b", "notx + 1",
+           "a and and_", "not not_ready", "in_ + is_ * a", "a if else_0 else or_mask"]
     for op in OPS2:
         out += [f"a {op} b if c else d", f"a if b {op} c else d",
                 f"a if b else c {op} d", f"not a {op} b", f"a {op} not b",
